@@ -88,6 +88,18 @@ def layers_of_var(fnode, var, _depth=0):
                         out.append(Layer('literal', '{%s}' % t.slice.value, st, [t.slice.value], {t.slice.value: st.value}))
                     else:
                         out.append(Layer('source', '[%s]' % norm(t.slice), st))
+    return _expand_sources(fnode, out, var, _depth)
+
+
+def layers_of_value(fnode, expr):
+    """Ordered layers of a dict-valued *expression* of the function: a name / attribute is looked up (layers_of_var), a
+    display or dict(...) call is taken apart where it stands (``f(**{**a, **b})``, ``inject(g, dict(a, **b))``)."""
+    if isinstance(expr, (ast.Name, ast.Attribute)):
+        return layers_of_var(fnode, norm(expr))
+    return _expand_sources(fnode, layers_of_expr(expr), None, 0)
+
+
+def _expand_sources(fnode, out, var, _depth):
     # a source that is itself a local built once in this function (``builtins = {...}; d = dict(builtins)``) is
     # replaced by that local's own layers; a local that merely names another object (``res = self.resources;
     # d.update(res)``) stands for that object
